@@ -822,6 +822,9 @@ CHECKS["C03"].update({
              "printer; why the unrestricted round trip is 'modulo members'), R7 (print_ast raises RecursionError on deeply nested documents the parser accepts; "
              "a divergence of the recursive implementation from the total model). Repaired: R1, R2, R3, R5, R6."),
     "technique": "Lean 4 proof (string encoders, block-string layout, whole-document print/parse round trip at text level for every indent) + exact-text printer correspondence + round-trip oracle",
+})
+
+
 # ---------------------------------------------------------------------------------------------------------------
 # C11 as built after the deepening rounds (replaces the texts above; obligation names are appended by manifest_gen.py).
 # ---------------------------------------------------------------------------------------------------------------
